@@ -16,6 +16,9 @@ pub enum Case {
     SameListSequence { nuni: usize },
     /// a menu of large numbers (size names) read back through a menu of requested lists
     Large { size: usize },
+    /// numbers with an infinite or overflowing second derivative (as x^1.5 has at 0) or gradient entry: every other
+    /// entry must still be read back exactly, through every requested list
+    NonFinite { which: u8 },
 }
 
 fn gval(name: usize, side: usize) -> f64 {
@@ -70,6 +73,9 @@ fn cases(tier: Tier) -> Vec<Case> {
     out.push(Case::SameListSequence { nuni: 3 });
     for size in [3usize, 4, 5, 7, 8, 9, 15, 16, 17, 20, 24, 33] {
         out.push(Case::Large { size });
+    }
+    for which in 0..4u8 {
+        out.push(Case::NonFinite { which });
     }
     let pn = 3;
     let fs = operands(pn, 1.5, 0, true);
@@ -318,6 +324,90 @@ pub fn check(case: &Case, idx: u64, acc: &mut Acc) {
             }
             acc.sample(cj);
         }
+        Case::NonFinite { which } => {
+            let nuni = 3usize;
+            let u = universe(nuni);
+            // stored order c, a, b ; special entry at (a, a) [which 0: +inf, 1: 1.2e308 (doubles to +inf), 2: -inf at (a, c)], 3: gradient of b is +inf
+            let stored = [2usize, 0, 1];
+            let names: Vec<String> = stored.iter().map(|i| u[*i].clone()).collect();
+            let mut g = vec![0.5, -1.25, 2.0];
+            let mut d2 = vec![0.0; 9];
+            for i in 0..3 {
+                for j in 0..3 {
+                    d2[i * 3 + j] = 0.125 * ((stored[i] + 1) * (stored[j] + 1)) as f64;
+                }
+            }
+            match which {
+                0 => d2[1 * 3 + 1] = f64::INFINITY,
+                1 => d2[1 * 3 + 1] = 1.2e308,
+                2 => {
+                    d2[1 * 3 + 0] = f64::NEG_INFINITY;
+                    d2[0 * 3 + 1] = f64::NEG_INFINITY;
+                }
+                _ => g[2] = f64::INFINITY,
+            }
+            let x = match Dual2::try_new(1.5, names.clone(), g.clone(), d2.clone()) {
+                Ok(x) => x,
+                Err(_) => {
+                    acc.skip();
+                    return;
+                }
+            };
+            let same = |p: f64, q: f64| p.to_bits() == q.to_bits() || p == q || (p.is_nan() && q.is_nan());
+            for list in ordered_sublists(nuni + 1) {
+                acc.evals_add(3);
+                acc.nontrivial();
+                let req: Vec<String> = list.iter().map(|i| sym(nuni, *i, &u)).collect();
+                let pos = |name: usize| stored.iter().position(|s| *s == name);
+                let g1 = x.gradient1(req.clone());
+                let w1: Vec<f64> = list.iter().map(|i| pos(*i).map(|p| g[p]).unwrap_or(0.0)).collect();
+                if g1.len() != w1.len() || g1.iter().zip(w1.iter()).any(|(p, q)| !same(*p, *q)) {
+                    acc.violate("non-finite/gradient1", idx, cj(), json!({"list": req, "want": format!("{:?}", w1)}), json!(format!("{:?}", g1)));
+                }
+                let h = x.gradient2(req.clone());
+                let mut bad = h.shape() != [list.len(), list.len()];
+                if !bad {
+                    for (i, a) in list.iter().enumerate() {
+                        for (j, b) in list.iter().enumerate() {
+                            let w = match (pos(*a), pos(*b)) {
+                                (Some(p), Some(q)) => 2.0 * d2[p * 3 + q],
+                                _ => 0.0,
+                            };
+                            if !same(h[[i, j]], w) {
+                                bad = true;
+                            }
+                        }
+                    }
+                }
+                if bad {
+                    acc.violate("non-finite/gradient2", idx, cj(), json!({"list": req, "want": "twice the stored half-Hessian entry by name, 0 for absent names; finite entries unaffected by the infinite one"}), json!(format!("{:?}", h)));
+                }
+                let man = x.gradient1_manifold(req.clone());
+                let mut badm = man.len() != list.len();
+                if !badm {
+                    for (i, a) in list.iter().enumerate() {
+                        let wv = pos(*a).map(|p| g[p]).unwrap_or(0.0);
+                        if !same(man[i].real(), wv) {
+                            badm = true;
+                        }
+                        let mg = man[i].gradient1(req.clone());
+                        for (j, b) in list.iter().enumerate() {
+                            let w = match (pos(*a), pos(*b)) {
+                                (Some(p), Some(q)) => 2.0 * d2[p * 3 + q],
+                                _ => 0.0,
+                            };
+                            if !same(mg[j], w) {
+                                badm = true;
+                            }
+                        }
+                    }
+                }
+                if badm {
+                    acc.violate("non-finite/manifold", idx, cj(), json!({"list": req}), json!("manifold entries by name differ"));
+                }
+            }
+            acc.sample(cj);
+        }
         Case::SameListSequence { nuni } => {
             let u = universe(*nuni);
             let ops = operands(*nuni, 1.5, 0, true);
@@ -431,7 +521,7 @@ pub fn run(ctx: &Ctx, replay_file: Option<String>) -> ! {
          Hessians and every requested list. Larger numbers on a menu (3..33 names) through a request menu that is the product of selection (all stored names, one omitted at the \
          front / second / middle / end, every other, contiguous blocks, a block with one name replaced by a name stored elsewhere, scattered names) x order \
          (stored, reversed, two interior names swapped, interior reversed, rotated, ends swapped) x padding with absent names (none, interleaved, \
-         4*size+2 absent names in front / behind / spread through). History independence: every requested list put, in a row on one thread, to \
+         4*size+2 absent names in front / behind / spread through). Numbers with an infinite / overflowing Hessian entry or an infinite gradient entry: every requested list still reads every other entry back exactly. History independence: every requested list put, in a row on one thread, to \
          every layout of a 3-name pool, each number built fresh and dropped before the next. Non-trivial: requests that differ from the stored list.",
         json!({"names": 4, "requested_lists": ordered_sublists(5).len(), "cases": cs.len()}),
     )
